@@ -7,8 +7,9 @@ Local Open Scope string_scope.
 
 (* Placement.  For every mismatch of the listed kinds (bad_expr / bad_stmt: an arithmetic or ordering
    operator on incompatible literal types, == between different types, not / and / or on a non-bool, unary
-   minus on a non-number, calling a non-function, a non-bool if / loop condition, a heterogeneous list, a
-   value contradicting the declared type of the variable it initialises) and every one-hole program
+   minus on a non-number, calling a non-function, calling a function expression with the wrong number of
+   arguments, a returned value contradicting the declared return type, a non-bool if / loop condition, a
+   heterogeneous list, a value contradicting the declared type of the variable it initialises) and every one-hole program
    context P (every syntactic position inside the value of any top-level definition, at any depth -
    operand, argument, list / tuple element, blob field initialiser, condition, branch, loop body, function
    and closure body, case arm, unused expression statement - or a top-level definition itself), every fuel
@@ -113,6 +114,20 @@ Proof. eapply BadVarType; reflexivity. Qed.
 Example C03_example_var_type_rejects :
   typecheck 40 (prog [SDefinition "x" 1 Mutable (TResolved BInt (spl 2)) (EStr "a" (spl 2)) (spl 2)])
   = Err (mkErr KMismatch (spl 2)) [].
+Proof. vm_compute. reflexivity. Qed.
+
+(* (fn a: int, b: int do end)(1): wrong arity, as an argument of a call inside a loop *)
+Example C03_example_arity : bad_expr (ECall (EFunction "lambda" [("a", 2%N, spl 3, TResolved BInt (spl 3)); ("b", 3%N, spl 3, TResolved BInt (spl 3))]
+                                                (TResolved BVoid (spl 3)) [] false (spl 3)) [EInt 1 (spl 3)] (spl 3)).
+Proof. apply BadArity. cbn. discriminate. Qed.
+
+(* fn -> int do ret "a" end *)
+Example C03_example_ret_type : bad_expr (EFunction "lambda" [] (TResolved BInt (spl 3)) [SRet (Some (EStr "a" (spl 3))) (spl 3)] false (spl 3)).
+Proof. eapply BadRetType; reflexivity. Qed.
+
+Example C03_example_ret_type_rejects :
+  typecheck 40 (prog [SStatementExpression (EFunction "lambda" [] (TResolved BInt (spl 3)) [SRet (Some (EStr "a" (spl 3))) (spl 3)] false (spl 3)) (spl 3)])
+  = Err (mkErr KMismatch (spl 3)) [].
 Proof. vm_compute. reflexivity. Qed.
 
 Print Assumptions C03_placement.
